@@ -130,7 +130,9 @@ class _STIXBase(collections.abc.Mapping):
         )
 
         custom_props = kwargs.pop('custom_properties', {})
-        if custom_props and not isinstance(custom_props, dict):
+        if custom_props is None:
+            custom_props = {}
+        if not isinstance(custom_props, dict):
             raise ValueError("'custom_properties' must be a dictionary")
 
         # Detect any keyword arguments representing customization.
